@@ -68,8 +68,8 @@ type c01Host struct {
 	conn    *mconn
 	utp     *portalwire.UtpTransportService
 	utpIn   func(*enode.Node, *net.UDPAddr, []byte) []byte // the "utp" TALKREQ handler
-	senders [3]*enode.Node                                 // 0: in every table, versions {0,1} (-> 1); 1: in no table, no version entry (-> 0); 2: in no table, versions {2} (-> 2, which the node advertises but only partly implements)
-	addrs   [3]*net.UDPAddr
+	senders [4]*enode.Node                                 // 0: in every table, versions {0,1} (-> 1); 1: in no table, no version entry (-> 0); 2: in no table, versions {2} (-> 2, which the node advertises but only partly implements); 3: in no table, a record WITHOUT ip/udp entries (a peer behind NAT that does not know its address yet), datagrams from a normal source address
+	addrs   [4]*net.UDPAddr
 	peers   []*enode.Node // further table entries (and the records of NODES / ENRS replies)
 	// sender 0 is also a live discv5 endpoint with a uTP service of its own. It is mute (wire.mute)
 	// except during a uTP exchange of part (5).
@@ -141,8 +141,8 @@ func newC01Host() *c01Host {
 		panic(err)
 	}
 	h.wire.mute = true
-	h.senders = [3]*enode.Node{pln.Node(), signedNode(detKey(c01HostKey+2), 1, net.IP{10, 0, 3, 2}, 9201), signedNode(detKey(c01HostKey+3), 1, net.IP{10, 0, 3, 3}, 9202, versEntry{2})}
-	h.addrs = [3]*net.UDPAddr{{IP: net.IP{10, 0, 3, 1}, Port: 9200}, {IP: net.IP{10, 0, 3, 2}, Port: 9201}, {IP: net.IP{10, 0, 3, 3}, Port: 9202}}
+	h.senders = [4]*enode.Node{pln.Node(), signedNode(detKey(c01HostKey+2), 1, net.IP{10, 0, 3, 2}, 9201), signedNode(detKey(c01HostKey+3), 1, net.IP{10, 0, 3, 3}, 9202, versEntry{2}), signedNode(detKey(c01HostKey+4), 1, nil, 0)}
+	h.addrs = [4]*net.UDPAddr{{IP: net.IP{10, 0, 3, 1}, Port: 9200}, {IP: net.IP{10, 0, 3, 2}, Port: 9201}, {IP: net.IP{10, 0, 3, 3}, Port: 9202}, {IP: net.IP{10, 0, 3, 4}, Port: 9203}}
 	for i := 0; i < 32; i++ {
 		h.peers = append(h.peers, signedNode(detKey(c01HostKey+10+i), 1, net.IP{10, 0, byte(4 + i), 1}, 9300+i))
 	}
